@@ -73,6 +73,9 @@ func TestC18(t *testing.T) {
 		key := fw.Key("A", i)
 		rng := r.Rand("A", i)
 		capN := caps[rng.IntN(len(caps))]
+		if i%60 == 11 {
+			capN = []int{100, 300, 1000}[rng.IntN(3)] // hundreds of slots, probed at the end only
+		}
 		auto := rng.IntN(2) == 0
 		rp, _ := sse.NewFiniteReplayer(capN, auto)
 		nops := 3 + rng.IntN(3*capN+4)
@@ -82,6 +85,9 @@ func TestC18(t *testing.T) {
 		every := 1
 		if nops > 24 {
 			every = 4
+		}
+		if nops > 200 {
+			every = 1 << 30
 		}
 		bad := false
 		for k := 0; k < nops && !bad; k++ {
@@ -163,6 +169,9 @@ func TestC18(t *testing.T) {
 		gcInt := []time.Duration{0, ttl / 4, ttl / 2, ttl, 3 * ttl, 1}[rng.IntN(6)]
 		rp.GCInterval = gcInt
 		nops := 5 + rng.IntN(60)
+		if i%60 == 13 {
+			nops = 600 + rng.IntN(1200) // bursts of hundreds of events: the ring grows past 1024 slots
+		}
 		r.Begin(key, fmt.Sprintf("valid ttl=%d gc=%d auto=%v ops=%d", ttl, gcInt, auto, nops))
 		var probes []c18Probe
 		var ops []string
@@ -224,12 +233,15 @@ func TestC18(t *testing.T) {
 					lastCollect, first = now, false
 				} else if gcInt > 0 && now.Sub(lastCollect) >= gcInt {
 					lastCollect = now
-					if !explicitSeen {
+					if !explicitSeen && (nops < 500 || rng.IntN(20) == 0) {
 						check("put_triggered_gc")
 					}
 				}
 				if rng.IntN(10) == 0 {
 					burst = 3 + rng.IntN(20)
+					if nops > 500 {
+						burst = 50 + rng.IntN(400)
+					}
 				}
 			case x < 8 && noExplicit:
 				now = now.Add(ttl / 3)
